@@ -488,6 +488,7 @@ func main() {
 	files = append(files, genTypeAddr(byDir)...)
 	files = append(files, genPoolUse(byDir)...)
 	files = append(files, genOptState(byDir)...)
+	files = append(files, genStreamPattern(byDir)...)
 	files = append(files, genVmShape(repo, byDir)...)
 	changed := []string{}
 	for _, g := range files {
